@@ -93,7 +93,8 @@ def lean_gate(ctx, module):
     """Build the library, re-elaborate the property module and audit the axioms of every theorem
     it lists with `#print axioms`.  Returns dict(obligations, discharged, theorems, checker_cmd).
     Raises LeanGateError if the proofs no longer check (caller decides what that means)."""
-    rc, out = lake_build(["ColaVerif", module])
+    # only the property module and what it imports: a broken sibling module must not fail this check
+    rc, out = lake_build([module])
     if rc != 0:
         raise LeanGateError("lake build failed:\n" + out[-3000:])
     path = os.path.join("ColaVerif", *module.split(".")[1:]) + ".lean"
@@ -117,7 +118,7 @@ def lean_gate(ctx, module):
         "discharged": len(theorems) - len(bad),
         "theorems": sorted(theorems),
         "bad_axioms": bad,
-        "checker_cmd": f"cd lean && lake build ColaVerif {module} && lake env lean {path}   # kernel re-check + #print axioms audit",
+        "checker_cmd": f"cd lean && lake build {module} && lake env lean {path}   # kernel re-check + #print axioms audit",
     }
     if ctx.thorough:
         rc, so, se = sh(["lake", "env", "leanchecker", module], cwd=LEAN_DIR, timeout=3000)
